@@ -109,6 +109,9 @@ pub fn quiet_panics() {
         } else {
             "<non-string panic payload>".to_string()
         };
+        if std::env::var("VH_LOUD").is_ok() {
+            eprintln!("PANIC at {site}:{}: {msg}", info.location().map(|l| l.line()).unwrap_or(0));
+        }
         LAST_PANIC.with(|p| *p.borrow_mut() = Some((site, msg)));
     }));
 }
